@@ -18,6 +18,8 @@ import (
 func init() {
 	fw.Register(&fw.Prop{
 		ID:       "C07",
+		Builds:   []string{"default", "386"}, // the 386 build runs 1/4 of the random classes on a 32-bit target
+		Scale386: 4,
 		Parallel: 4, // cases are judged on 4 goroutines per shard: the library functions are stateless, shared state inside them shows up as wrong verdicts
 		Rule: "(seed, message) pairs: seeds random / all-zero / all-0xff / single-bit; messages of every length 0..2400 (both SHA-512 padding regimes of prefix||M and R||A||M, and beyond any plausible fixed-size buffer), lengths around 2^10..2^17, and random 1..64 KiB. For each pair the monitor compares NewKeyFromSeed, Public, Seed, Sign (twice), PrivateKey.Sign(Hash(0)), GenerateKey(reader) byte for byte with crypto/ed25519 and with the big-integer RFC 8032 signer, checks Verify accepts, pre-hashed options are refused and short readers fail. " +
 			"Non-trivial: distinct (seed, len(msg)) pairs (all cases).",
